@@ -11,7 +11,7 @@ Not decided: wall-clock behaviour of the reactor.
 import ast
 
 from ..model import self_attr, unparse, walk_body_shallow
-from .util import call_name, call_recv, calls_in, kwarg, need, node_assign_value, norm, registrations, where
+from .util import call_name, call_recv, calls_in, evaluated_unconditionally, kwarg, need, node_assign_value, norm, registrations, where
 
 TECHNIQUE = "timer armed/released pairing on the CFG, registration-kind and free-variable-before-registration checks, " \
             "who-may-call"
@@ -39,7 +39,9 @@ def run(ctx):
     mk = [n for n in cf.nodes if any(call_name(c) == "makeRequest" for c in n.calls())]
     cl = [n for n in cf.nodes if any(call_name(c) == "callLater" for c in n.calls())]
     need(len(mk) == 1 and len(cl) == 1, "makeRequest / callLater not found once in the wrapper")
-    r.check(not cf.normal_exits_from(mk[0].id, avoid=[cl[0].id]), "%s#timer-after-request" % w.qname,
+    c0 = [x for x in cl[0].calls() if call_name(x) == "callLater"][0]
+    r.check(not cf.normal_exits_from(mk[0].id, avoid=[cl[0].id]) and evaluated_unconditionally(cl[0].stmt, c0),
+            "%s#timer-after-request" % w.qname,
             "a request can be issued without a timeout timer", where(w, mk[0].stmt), "silent broker: the request never resolves")
     c = [x for x in cl[0].calls() if call_name(x) == "callLater"][0]
     dv = norm(c.args[0])
